@@ -534,6 +534,40 @@ def run(F, R, tier):
                 base = Rr.r(strip_all(inits[strip_all(arg)["id"]]))
             upper = any(t_ in ("(1 < %s)" % x, "(1.0 < %s)" % x, "!(%s <= 1)" % x) for t_ in tests for x in (a_txt, base)) or \
                 any(t_ == "(%s <= 1)" % x for t_ in tests for x in (a_txt, base))
+            if not upper:
+                # the same on the syntax tree: `arg > 1`, `1 < arg`, `!(arg <= 1)`, `!(1 >= arg)` in an exiting if; or the guards
+                # `arg <= 1`, `!(arg > 1)` around the call
+                def above_one(cn, pol):
+                    cn = strip_all(cn)
+                    while cn is not None and cn.get("k") == "UnaryOperator" and cn.get("op") == "!":
+                        cn, pol = strip_all(cn["c"][0]), not pol
+                    if cn is None or cn.get("k") != "BinaryOperator" or cn.get("op") not in ("<", "<=", ">", ">="):
+                        return False
+                    l_, r_ = strip_all(cn["c"][0]), strip_all(cn["c"][1])
+                    op_ = cn["op"]
+
+                    def is_arg(u):
+                        return u is not None and Rr.r(u) in (a_txt, base)
+
+                    def is_one(u):
+                        try:
+                            return u is not None and u.get("k") in ("FloatingLiteral", "IntegerLiteral") and float(u.get("v") if u.get("v") is not None else u.get("s")) == 1.0
+                        except (TypeError, ValueError):
+                            return False
+                    if is_arg(l_) and is_one(r_):
+                        gt = op_ in (">", ">=")
+                    elif is_one(l_) and is_arg(r_):
+                        gt = op_ in ("<", "<=")
+                    else:
+                        return False
+                    # pol True: the condition holds on the path considered
+                    return gt == pol
+                for b in S.executed_before(n):
+                    if b.get("k") == "IfStmt" and always_exits(b.get("then")) and above_one(b["cond"], True):
+                        upper = True
+                for c_, pol_ in S.guards(n):
+                    if c_ != "switch" and above_one(c_, not pol_):
+                        upper = True
             lower = lo >= -1.0 or any(t_ in ("(%s < -1)" % x,) for t_ in tests for x in (a_txt, base))
             ok = upper and lower
             how = "dominating test" if ok else "interval [%g, %g], no dominating rejection of values above 1 (tests seen: %s)" % (lo, hi, tests[-3:])
